@@ -127,6 +127,18 @@ let handle (toks : string list) : string =
         (if ack then enc_auth_resp_len else enc_auth_msg_len) (bytes_of_hex stream) in
     (match c with HShort -> "short" | HPlain -> "ok-plain" | HUnderflow -> "underflow"
                 | HDecryptErr -> "err" | HBadBody -> "err" | HOk -> "ok") ^ " " ^ dec n
+  | ["rhs"; stream; pl; e8; idc; ecdh; sigr] ->
+    (* receiverEncHandshake: readHandshakeMsg then handleAuthMsg (primitive outcomes as oracle bits) *)
+    let dec_plain _ = if pl = "none" then None else Some (bytes_of_hex pl) in
+    let dec_eip8 _ _ = if e8 = "none" then None else Some (bytes_of_hex e8) in
+    let (c, _) = read_handshake_msg dec_plain dec_eip8 auth_body_ok enc_auth_msg_len (bytes_of_hex stream) in
+    (match receiver_handshake c (bool_of_tok idc) (bool_of_tok ecdh) (bool_of_tok sigr) with
+     | RcRead HShort -> "read-short" | RcRead HUnderflow -> "read-underflow" | RcRead _ -> "read-err"
+     | RcBadId -> "badid" | RcBadEcdh -> "badecdh" | RcBadSig -> "badsig" | RcOk -> "ok")
+  | ["phs"; code; size; payload] ->
+    (match read_protocol_handshake (n_of_string code) (n_of_string size) (bytes_of_hex payload) with
+     | PhTooBig -> "toobig" | PhDisc -> "disc" | PhWrongCode -> "wrongcode" | PhBadBody -> "badbody"
+     | PhZeroId -> "zeroid" | PhOk id -> "ok " ^ hex_of_bytes id)
   | ["decmsg"; t; body] ->
     (match dec_msg (n_of_string t) (bytes_of_hex body) with
      | None -> "err" | Some m -> "ok " ^ kind_of m ^ " " ^ hex_of_bytes (encode_msg m))
